@@ -7,6 +7,7 @@
 pub mod common;
 pub mod e2e;
 pub mod engine;
+pub mod reduce;
 pub mod swgen;
 pub mod swgen_gen;
 pub mod swrun;
@@ -188,7 +189,7 @@ fn shard_main(a: &[String]) -> i32 {
         budget: Duration::from_millis(a[5].parse().expect("budget")),
         first_index: std::env::var("SWVERIF_FIRST_INDEX").ok().and_then(|s| s.parse().ok()).unwrap_or(0),
     };
-    let limit_s: u64 = std::env::var("SWVERIF_CASE_WATCHDOG_S").ok().and_then(|s| s.parse().ok()).unwrap_or(150);
+    let limit_s: u64 = std::env::var("SWVERIF_CASE_WATCHDOG_S").ok().and_then(|s| s.parse().ok()).unwrap_or(60);
     start_watchdog(&ctx, std::path::Path::new(&a[6]), Duration::from_secs(limit_s));
     let res = (prop.shard)(&ctx);
     std::fs::write(&a[6], serde_json::to_string(&res).unwrap()).expect("write shard result");
